@@ -23,10 +23,10 @@ def run(tier, seed, ev):
     with mirrun.mir_executor(PROP + "s") as (ex, scr, mir_s):
         plans = [(("put", "put"), 1, 2, dict(faults=1))]
         if tier == "thorough":
-            plans.append((("put", "put"), 2, 2, dict(faults=1)))
+            plans.append((("put", "remove"), 1, 2, dict(faults=1)))    # an aborted commit against a concurrent remove of the same key
         # D4 (two successful puts on one key clobber each other's intent) is C04's known finding, not an aborted transaction
         rc2 = sprop.run_s(PROP, tier, seed, ev, ex, plans, accept=lambda role: role != "same_key_intent_clobber")
-        ev.bounds["interleavings"] = ("put||put on one key (thorough: two keys), hash universe 2, at most one injected failure at the rename into cas/; "
+        ev.bounds["interleavings"] = ("put||put on one key (thorough: also put||remove), hash universe 2, at most one injected failure at the rename into cas/; "
                                       "arbitrary initial index and blob set; quiet log stretch")
         ev.functions.append("threads: Transaction::commit x2 incl. IntentGuard::drop on the error path - full MIR, interleaved")
     return tcommon.best(rc1, rc2)
